@@ -77,6 +77,8 @@ SYSCALLS = [
     ('fallocate64', 'fd: i32, mode: i32, offset: i64, len: i64', 'i32', 24, 'fd, mode, offset, len'),
     ('openat', 'dirfd: i32, path: *const i8, flags: i32, mode: u32', 'i32', 26, 'dirfd, cstr_at(path), flags, mode, old(hs).euid, old(hs).egid'),
 ]
+# the name arguments of the calls that create, remove, rename or link a NAME given by the client: they must have passed the name gate
+GATED = {'mkdirat': ['path'], 'mknodat': ['path'], 'symlinkat': ['linkpath'], 'linkat': ['newpath'], 'unlinkat': ['path'], 'renameat2': ['oldpath', 'newpath'], 'openat': ['path']}
 # calls that fill a caller-supplied buffer: the bytes stored are `pending` of the token
 BUFCALLS = [
     ('readlinkat', 'dirfd: i32, path: *const i8, buf: &mut Vec<u8>, bufsiz: usize', 'isize', 7, 'dirfd, cstr_at(path), bufsiz', 'bufsiz'),
@@ -129,6 +131,9 @@ def sys_module():
         caps.append('pub uninterp spec fn %s_ok(%s) -> bool;' % (n, ', '.join('a%d: %s' % (i, t) for i, t in enumerate(tys))))
         L.append('    #[verifier::external_body] pub fn %s(%s, Tracked(hs): Tracked<&mut Host>) -> (r: %s)' % (n, params, ret))
         L.append('        requires %s_ok(%s), // [C05.hostcall.%s] only the call the request prescribes, with exactly its arguments' % (n, capargs, n))
+        for gp in GATED.get(n, ()):
+            # C06: "every operation that creates, removes, renames or links a name also rejects "." and ".." [and "/"] before any backend is touched"
+            L.append('            gated(cstr_at(%s)), // [C06.gate.%s] the name this call creates / removes / renames / links has passed validate_path_component' % (gp, n))
         L.append('        ensures step(*old(hs), *final(hs), %d, r as int), final(hs).pending == old(hs).pending' % nr)
         L.append('    { unimplemented!() }')
     for (n, params, ret, nr, capargs, size) in BUFCALLS:
@@ -232,6 +237,7 @@ pub open spec fn one_call(o: Host, n: Host, nr: int) -> bool {
 pub open spec fn failed_with<T>(r: io::Result<T>, c: Ret) -> bool { r is Err && r->Err_0.os_code() == Some(c.errno) }
 
 // ===== names and paths by content
+pub uninterp spec fn gated(name: Seq<u8>) -> bool;                // this name has passed PassthroughFs::validate_path_component (C06)
 pub uninterp spec fn cstr_at(p: *const i8) -> Seq<u8>;          // the C string stored at p (the bytes before the terminating NUL)
 impl CStr { #[verifier::external_body] pub fn as_ptr(&self) -> (r: *const i8) ensures cstr_at(r) == self@ { unimplemented!() } }
 #[verifier::external_body] pub struct CString { _p: u8 }
@@ -356,7 +362,7 @@ impl<S: BitmapSlice + Send + Sync> PassthroughFs<S> {
     pub uninterp spec fn res_do_getattr(&self, inode: Inode, handle: Option<Handle>) -> io::Result<(stat64, Duration)>;
     #[verifier::external_body] fn do_getattr(&self, inode: Inode, handle: Option<Handle>) -> (r: io::Result<(stat64, Duration)>)
         ensures r == self.res_do_getattr(inode, handle) { unimplemented!() }
-    #[verifier::external_body] fn validate_path_component(&self, name: &CStr) -> (r: io::Result<()>) { unimplemented!() }
+    #[verifier::external_body] fn validate_path_component(&self, name: &CStr) -> (r: io::Result<()>) ensures r is Ok ==> gated(name@) { unimplemented!() }      // verified in unit pt (what it accepts); here: the only source of `gated`
     #[verifier::external_body] fn forget(&self, ctx: &Context, inode: Inode, count: u64) { unimplemented!() }
 ''' + PTSIZE_SEAL + r'''}
 ''' + PTSIZE_TAIL + HANDLES_OPENOPTS + r'''
@@ -527,7 +533,8 @@ def unit(root='/repo'):
         return '%s == 1 && %s.ret %s ==> %s // [C05.%s.%s]' % (N, R0, cond, what, op, tag)
     G_HELP = Group(IMPL + ' {', [
         F(PTS, IMPL, 'do_unlink', canary=True,
-          requires=[S, ROOT, 'unlinkat_ok(ino_fd(parent), name@, flags) // [C05.do_unlink.call] unlinkat(parent fd, name, flags)'],
+          requires=[S, ROOT, 'unlinkat_ok(ino_fd(parent), name@, flags) // [C05.do_unlink.call] unlinkat(parent fd, name, flags)',
+                    'gated(name@) // [C06.gate.do_unlink] unlink / rmdir have put the name through the gate'],
           ensures=one('do_unlink', NR['unlinkat']) + [reply('do_unlink', '== 0', 'res is Ok')]),
         F(PT, IMPL, 'get_writeback_open_flags', tok=False, ret_name='r',
           ensures=['r == self.wb_flags(flags) // [C05.open.wbflags] the writeback adjustment: O_WRONLY -> O_RDWR, O_APPEND cleared, nothing else']),
@@ -723,6 +730,7 @@ def unit(root='/repo'):
     CREATE_PARTS = [
         F(UTIL, None, 'openat', canary=True, sig_subst=[('fn openat(', 'fn openat<D: AsRawFd>('), ('dir_fd: &impl AsRawFd', 'dir_fd: &D')],
           requires=['flags & 0o100i32 == 0o100i32 ==> openat_ok(dir_fd.sfd(), path@, flags, mode, old(hs).euid, old(hs).egid) // [C05.openat.call] openat(dir fd, path, flags, mode) when creating',
+                    'flags & 0o100i32 == 0o100i32 ==> gated(path@) // [C06.gate.openat] a creating open is given a name that passed the gate',
                     'flags & 0o100i32 != 0o100i32 ==> openat3_ok(dir_fd.sfd(), path@, flags, old(hs).euid, old(hs).egid) // [C05.openat.call_nomode]'],
           ensures=['final(hs).rets.len() == old(hs).rets.len() + 1 && final(hs).rets.drop_last() == old(hs).rets && final(hs).rets.last().nr == (if flags & 0o100i32 == 0o100i32 { 26int } else { 27int })',
                    'res is Ok <==> final(hs).rets.last().ret >= 0', 'res is Ok ==> res->Ok_0.sfd() == final(hs).rets.last().ret',
@@ -731,7 +739,8 @@ def unit(root='/repo'):
     ]
     G_CREATE = Group(IMPL + ' { // create', [
         F(PT, IMPL, 'create_file_excl', canary=True, sig_subst=[('fn create_file_excl(', 'fn create_file_excl<D: AsRawFd>('), ('dir: &impl AsRawFd', 'dir: &D')],
-          requires=['openat_ok(dir.sfd(), pathname@, flags | 0o100i32 | 0o200i32, mode, old(hs).euid, old(hs).egid) // [C05.create_file_excl.call] the creating open: flags | O_CREAT | O_EXCL'],
+          requires=['openat_ok(dir.sfd(), pathname@, flags | 0o100i32 | 0o200i32, mode, old(hs).euid, old(hs).egid) // [C05.create_file_excl.call] the creating open: flags | O_CREAT | O_EXCL',
+                    'gated(pathname@) // [C06.gate.create_file_excl]'],
           ensures=['final(hs).rets.len() == old(hs).rets.len() + 1 && final(hs).rets.drop_last() == old(hs).rets && final(hs).rets.last().nr == 26',
                    'res is Ok && res->Ok_0 is Some ==> final(hs).rets.last().ret >= 0',
                    'res is Ok && res->Ok_0 is None ==> final(hs).rets.last().ret < 0 && final(hs).rets.last().errno == 17 && flags & 0o200i32 == 0 // [C05.create_file_excl.exists] "exists" is swallowed only for EEXIST without O_EXCL',
